@@ -1000,9 +1000,6 @@ func (s *SecureChannel) sendRequestWithTimeout(
 	ch, err := s.sendAsyncWithTimeout(ctx, req, reqID, instance, authToken, respRequired, timeout)
 	s.pendingReq.Done()
 	if err != nil {
-		// the handler may already be registered (the context ended, or encoding or
-		// writing failed after the registration): release the pending slot
-		s.popHandler(reqID)
 		return err
 	}
 
@@ -1083,10 +1080,21 @@ func (s *SecureChannel) sendAsyncWithTimeout(
 	authToken *ua.NodeID,
 	respRequired bool,
 	timeout time.Duration,
-) (<-chan *MessageBody, error) {
+) (_ <-chan *MessageBody, err error) {
 
 	instance.Lock()
 	defer instance.Unlock()
+
+	// When sending fails after the handler was registered (the context ended, or
+	// encoding or writing failed) the pending slot is released again. Only a slot
+	// registered by this call is touched: a refused duplicate registration must
+	// leave the handler of the request that owns the id alone.
+	registered := false
+	defer func() {
+		if err != nil && registered {
+			s.popHandler(reqID)
+		}
+	}()
 	verifPoint("send.locked", s, "req", reqID, "tok", instance.securityTokenID)
 
 	m, err := instance.newRequestMessage(req, reqID, authToken, timeout)
@@ -1109,6 +1117,7 @@ func (s *SecureChannel) sendAsyncWithTimeout(
 
 		s.handlers[reqID] = resp
 		s.handlersMu.Unlock()
+		registered = true
 	}
 
 	chunks, err := m.EncodeChunks(instance.maxBodySize)
